@@ -174,6 +174,9 @@ def gen_cases(tier, seed):
                     sp2['family'] = 'window-slow-on_done'
                     cases.append(sp2)
     rng.shuffle(cases)
+    from ..gen import sprinkle
+
+    sprinkle(cases, seed)
     return cases
 
 
